@@ -1,18 +1,18 @@
 #!/bin/bash
 # tools/confirm_mut.sh <Cxx> <i> : confirm a seeded change in its scratch worktree (demo passes without it,
 # fails with it, pinned test-suite still passes with it), then store it under /verif/seeded/<Cxx>-<i>/.
-ID=$1; I=$2; WT=/tmp/mut/$ID/wt; OUT=/tmp/mut/$ID/out
+ID=$1; I=$2; WT=/tmp/mut/$ID/wt; OUT=/tmp/mut/$ID/${3:-out}; T=${4:-$I}   # optional: output dir name (out2 = second wave), target index under /verif/seeded
 export PYTHONHASHSEED=0
 git -C $WT checkout -q -- . || exit 2
 ( cd $OUT && PYTHONPATH=/tmp/mut/shim:$WT timeout 900 /venv/bin/python demo$I.py >/dev/null 2>&1 ); A=$?
 git -C $WT apply $OUT/patch$I.diff || { echo "$ID-$I: patch does not apply"; exit 2; }
 ( cd $OUT && PYTHONPATH=/tmp/mut/shim:$WT timeout 900 /venv/bin/python demo$I.py >/dev/null 2>&1 ); B=$?
-T=$(cd $WT && PYTHONPATH=$WT timeout 1200 /venv/bin/python -m pytest -q -p no:cacheprovider --timeout=900 --continue-on-collection-errors 2>&1 | tail -1)
+TS=$(cd $WT && PYTHONPATH=$WT timeout 1200 /venv/bin/python -m pytest -q -p no:cacheprovider --timeout=900 --continue-on-collection-errors 2>&1 | tail -1)
 git -C $WT checkout -q -- .; git -C $WT clean -fdq
-echo "$ID-$I: demo clean exit=$A, demo patched exit=$B, suite with patch: $T"
-if [ $A -eq 0 ] && [ $B -ne 0 ] && echo "$T" | grep -q "113 passed"; then
-  D=/verif/seeded/$ID-$I; mkdir -p $D; cp $OUT/patch$I.diff $D/patch.diff; cp $OUT/demo$I.py $D/demo.py
-  python3 - "$OUT/meta$I.json" "$D/meta.json" "$ID" "$A" "$B" "$T" <<'PY'
+echo "$ID-$T: demo clean exit=$A, demo patched exit=$B, suite with patch: $TS"
+if [ $A -eq 0 ] && [ $B -ne 0 ] && echo "$TS" | grep -q "113 passed"; then
+  D=/verif/seeded/$ID-$T; mkdir -p $D; cp $OUT/patch$I.diff $D/patch.diff; cp $OUT/demo$I.py $D/demo.py
+  python3 - "$OUT/meta$I.json" "$D/meta.json" "$ID" "$A" "$B" "$TS" <<'PY'
 import json,sys
 src,dst,pid,a,b,t=sys.argv[1:7]
 try: m=json.load(open(src))
